@@ -105,6 +105,10 @@ where
 {
     /// reserve a robin-hood table capable of holding at least `sz` elements
     pub fn new() -> BackedRobinhoodTable<'a, T> {
+        #[cfg(rsdd_verif)]
+        if crate::verif::table_capacity() > 0 {
+            return Self::with_capacity(crate::verif::table_capacity());
+        }
         let v: Vec<HashTableElement<T>> = vec![HashTableElement::default(); DEFAULT_SIZE];
 
         BackedRobinhoodTable {
@@ -114,6 +118,38 @@ where
             len: 0,
             hits: 0,
         }
+    }
+
+    /// verification hook: a table with `cap` slots instead of the default
+    #[cfg(rsdd_verif)]
+    pub fn with_capacity(cap: usize) -> BackedRobinhoodTable<'a, T> {
+        BackedRobinhoodTable {
+            tbl: vec![HashTableElement::default(); cap],
+            alloc: Bump::new(),
+            cap,
+            len: 0,
+            hits: 0,
+        }
+    }
+
+    /// verification hook: current number of slots
+    #[cfg(rsdd_verif)]
+    pub fn capacity(&self) -> usize {
+        self.cap
+    }
+
+    /// verification hook: read-only view of the slot array
+    #[cfg(rsdd_verif)]
+    pub fn dump_slots(&self) -> Vec<crate::verif::SlotView> {
+        self.tbl
+            .iter()
+            .map(|e| crate::verif::SlotView {
+                occupied: e.ptr.is_some(),
+                hash: e.hash,
+                psl: e.psl,
+                addr: e.ptr.map_or(0, |p| p as *const T as usize),
+            })
+            .collect()
     }
 
     /// check if item at index `pos` is occupied
